@@ -162,6 +162,11 @@ def run_c03(prop, cfg, tier, seed):
     # start rule of pigeon.peg's tables under the Lean runtime model; a rejection carries the model's diagnostic
     from . import front_model
     fviol, fcov = front_model.run(prop, tier, seed, 250, 6000)
+    # the class parser: the real ast.NewCharClassMatcher against its Lean model (the subject of C03_class_parse_roundtrip)
+    from . import class_check
+    cviol, ccov = class_check.run(prop, tier, seed)
+    fviol = list(fviol) + cviol
+    fcov.update(ccov)
     return generic(prop, cfg, tier, seed,
                    [("pvfront", 1500, 40000, ["-k", "3"], {"classdash": "D3", "multilineeos": "D20", "slashslashbrace": "D21", "reserved": "F1", "quotebyte": "F2"})],
                    extra_viol=fviol, extra_cov=fcov)
